@@ -1,7 +1,7 @@
 (* C16 (round 4): Arr_Proofs instantiated with the regenerated sizing functions (sqrt / cnst, every L <= 62, sizes < 2^62) *)
 From Coq Require Import ZArith Bool List Lia.
 From MomoCommon Require Import GenPrelude.
-From C16 Require Gen_SegSqrt Gen_SegCnst Gen_ArrSqrt Gen_ArrCnst Gen_ArrLog Gen_ShiftSqrt Gen_ShiftCnst Gen_SegFacts SegMath SegSqrt_Proofs SegCnst_Proofs SegModel SegModel_Inst Arr_Proofs.
+From C16 Require Gen_SegSqrt Gen_SegCnst Gen_ArrSqrt Gen_ArrCnst Gen_ArrLog Gen_ShiftSqrt Gen_ShiftCnst Gen_ShiftXSqrt ShiftX_Proofs Gen_SegFacts SegMath SegSqrt_Proofs SegCnst_Proofs SegModel SegModel_Inst Arr_Proofs.
 Local Open Scope Z_scope.
 Import SegMath SegModel_Inst.
 
@@ -216,11 +216,23 @@ Theorem sqrt_remove_n_from_facts alloc segs n c (items : Z -> Z) index count : A
     (forall j, j < index -> Arr_Proofs.g_items g' j = items j) /\ (forall j, index <= j < c - count -> Arr_Proofs.g_items g' j = items (j + count)).
 Proof. intros. eapply (Arr_Proofs.remove_n_from_facts seg idx cnt alloc maxi (SCq L)); dq2. Qed.
 
-Theorem sqrt_range_insert_from_facts alloc segs n c (items : Z -> Z) index count : Arr_Proofs.ginv seg maxi (SCq L) n c -> 0 <= count -> c + count < maxi ->
-  exists g', Arr_Proofs.run seg idx alloc (map Arr_Proofs.act_of Gen_SegFacts.seg_pvinsert_forward) index count 0 (Arr_Proofs.mkg segs n c items) = Ok g' /\
+Theorem sqrt_range_insert_from_facts alloc segs n c (items : Z -> Z) index count it : Arr_Proofs.ginv seg maxi (SCq L) n c -> 0 <= index <= c -> 0 <= count ->
+  c + count < maxi -> c + count <= it ->
+  exists g', Arr_Proofs.run seg idx alloc (map Arr_Proofs.act_of Gen_SegFacts.seg_pvinsert_forward) index count it (Arr_Proofs.mkg segs n c items) = Ok g' /\
     Arr_Proofs.g_c g' = c + count /\ (forall k, k < n -> Arr_Proofs.g_segs g' k = segs k) /\ Arr_Proofs.ginv seg maxi (SCq L) (Arr_Proofs.g_n g') (c + count) /\
-    (forall i, 0 <= i < c -> Arr_Proofs.GA.pvGetItem seg (Arr_Proofs.g_segs g') (Arr_Proofs.g_n g') (c + count) i = Arr_Proofs.GA.pvGetItem seg segs n c i).
+    (forall i, 0 <= i < c -> Arr_Proofs.GA.pvGetItem seg (Arr_Proofs.g_segs g') (Arr_Proofs.g_n g') (c + count) i = Arr_Proofs.GA.pvGetItem seg segs n c i) /\
+    (forall j, j < index -> Arr_Proofs.g_items g' j = items j) /\ (forall j, index <= j < index + count -> Arr_Proofs.g_items g' j = items (it + (j - index))) /\
+    (forall j, index + count <= j < c + count -> Arr_Proofs.g_items g' j = items (j - count)).
 Proof. intros. eapply (Arr_Proofs.range_insert_from_facts seg idx cnt alloc maxi (SCq L)); dq2. Qed.
+
+Theorem sqrt_remove_if_stable (pred : Z -> bool) segs n (m : nat) (items : Z -> Z) : Arr_Proofs.ginv seg maxi (SCq L) n (Z.of_nat m) ->
+  exists items', Gen_ShiftXSqrt.ShiftRemoveIf pred items (Z.of_nat m) (idx n 0) =
+      Ok (Z.of_nat m - Z.of_nat (length (ShiftX_Proofs.filt pred items m)), items', Z.of_nat (length (ShiftX_Proofs.filt pred items m))) /\
+    Arr_Proofs.ginv seg maxi (SCq L) n (Z.of_nat (length (ShiftX_Proofs.filt pred items m))) /\
+    (forall j, (j < length (ShiftX_Proofs.filt pred items m))%nat -> items' (Z.of_nat j) = nth j (ShiftX_Proofs.filt pred items m) 0) /\
+    (forall i, 0 <= i < Z.of_nat (length (ShiftX_Proofs.filt pred items m)) ->
+       Arr_Proofs.GA.pvGetItem seg segs n (Z.of_nat (length (ShiftX_Proofs.filt pred items m))) i = Arr_Proofs.GA.pvGetItem seg segs n (Z.of_nat m) i).
+Proof. intros. eapply (Arr_Proofs.remove_if_stable seg idx cnt maxi (SCq L)); dq2. Qed.
 
 Theorem sqrt_singlepass_insert_from_facts alloc m segs n c (items : Z -> Z) index (its : nat -> Z) : Arr_Proofs.ginv seg maxi (SCq L) n c -> 0 <= index <= c ->
   c + Z.of_nat m < maxi -> (forall k, c + Z.of_nat m <= its k) ->
@@ -404,11 +416,23 @@ Theorem cnst_remove_n_from_facts alloc segs n c (items : Z -> Z) index count : A
     (forall j, j < index -> Arr_Proofs.g_items g' j = items j) /\ (forall j, index <= j < c - count -> Arr_Proofs.g_items g' j = items (j + count)).
 Proof. intros. eapply (Arr_Proofs.remove_n_from_facts seg idx cnt alloc maxi (SCc L)); dc2. Qed.
 
-Theorem cnst_range_insert_from_facts alloc segs n c (items : Z -> Z) index count : Arr_Proofs.ginv seg maxi (SCc L) n c -> 0 <= count -> c + count < maxi ->
-  exists g', Arr_Proofs.run seg idx alloc (map Arr_Proofs.act_of Gen_SegFacts.seg_pvinsert_forward) index count 0 (Arr_Proofs.mkg segs n c items) = Ok g' /\
+Theorem cnst_range_insert_from_facts alloc segs n c (items : Z -> Z) index count it : Arr_Proofs.ginv seg maxi (SCc L) n c -> 0 <= index <= c -> 0 <= count ->
+  c + count < maxi -> c + count <= it ->
+  exists g', Arr_Proofs.run seg idx alloc (map Arr_Proofs.act_of Gen_SegFacts.seg_pvinsert_forward) index count it (Arr_Proofs.mkg segs n c items) = Ok g' /\
     Arr_Proofs.g_c g' = c + count /\ (forall k, k < n -> Arr_Proofs.g_segs g' k = segs k) /\ Arr_Proofs.ginv seg maxi (SCc L) (Arr_Proofs.g_n g') (c + count) /\
-    (forall i, 0 <= i < c -> Arr_Proofs.GA.pvGetItem seg (Arr_Proofs.g_segs g') (Arr_Proofs.g_n g') (c + count) i = Arr_Proofs.GA.pvGetItem seg segs n c i).
+    (forall i, 0 <= i < c -> Arr_Proofs.GA.pvGetItem seg (Arr_Proofs.g_segs g') (Arr_Proofs.g_n g') (c + count) i = Arr_Proofs.GA.pvGetItem seg segs n c i) /\
+    (forall j, j < index -> Arr_Proofs.g_items g' j = items j) /\ (forall j, index <= j < index + count -> Arr_Proofs.g_items g' j = items (it + (j - index))) /\
+    (forall j, index + count <= j < c + count -> Arr_Proofs.g_items g' j = items (j - count)).
 Proof. intros. eapply (Arr_Proofs.range_insert_from_facts seg idx cnt alloc maxi (SCc L)); dc2. Qed.
+
+Theorem cnst_remove_if_stable (pred : Z -> bool) segs n (m : nat) (items : Z -> Z) : Arr_Proofs.ginv seg maxi (SCc L) n (Z.of_nat m) ->
+  exists items', Gen_ShiftXSqrt.ShiftRemoveIf pred items (Z.of_nat m) (idx n 0) =
+      Ok (Z.of_nat m - Z.of_nat (length (ShiftX_Proofs.filt pred items m)), items', Z.of_nat (length (ShiftX_Proofs.filt pred items m))) /\
+    Arr_Proofs.ginv seg maxi (SCc L) n (Z.of_nat (length (ShiftX_Proofs.filt pred items m))) /\
+    (forall j, (j < length (ShiftX_Proofs.filt pred items m))%nat -> items' (Z.of_nat j) = nth j (ShiftX_Proofs.filt pred items m) 0) /\
+    (forall i, 0 <= i < Z.of_nat (length (ShiftX_Proofs.filt pred items m)) ->
+       Arr_Proofs.GA.pvGetItem seg segs n (Z.of_nat (length (ShiftX_Proofs.filt pred items m))) i = Arr_Proofs.GA.pvGetItem seg segs n (Z.of_nat m) i).
+Proof. intros. eapply (Arr_Proofs.remove_if_stable seg idx cnt maxi (SCc L)); dc2. Qed.
 
 Theorem cnst_singlepass_insert_from_facts alloc m segs n c (items : Z -> Z) index (its : nat -> Z) : Arr_Proofs.ginv seg maxi (SCc L) n c -> 0 <= index <= c ->
   c + Z.of_nat m < maxi -> (forall k, c + Z.of_nat m <= its k) ->
